@@ -214,6 +214,32 @@ def plain_pdus(rid):
 def run_plain(case, res, cfg, op, w, req, it):
     mod, fast = drivers.subject()
     n = 0
+    extra_dgs = []
+    if cfg.version == "v3":
+        # well-formed, length-consistent v3 envelopes that end right after msgSecurityParameters (no msgData), every flag value
+        for flags in range(8):
+            for ap in (b"", bytes(12)):
+                usm = rb.build_usm(cfg.engine_id, req.boots, req.time, cfg.user, ap, b"" if not flags & 2 else b"\x00" * 8)
+                hdr = rb.tlv(0x30, rb.enc_int(req.msg_id) + rb.enc_int(65507) + rb.enc_octets(bytes([flags])) + rb.enc_int(3))
+                extra_dgs.append(rb.tlv(0x30, rb.enc_int(3) + hdr + rb.enc_octets(usm)))
+                extra_dgs.append(rb.tlv(0x30, rb.enc_int(3) + hdr + rb.enc_octets(usm) + rb.enc_octets(b"")))
+                extra_dgs.append(rb.tlv(0x30, rb.enc_int(3) + hdr))
+    for dg in extra_dgs:
+        w.inject(dg)
+        if op in ("getnext", "getbulk"):
+            it = fast.GetIter(rb.oid_str(BASE), 10) if op == "getbulk" else fast.GetIter(rb.oid_str(BASE))
+        out = w.recv(op, it)
+        n += 1
+        cls, ok = classify(out, op)
+        res.outcome(cls)
+        if not ok:
+            res.violation(
+                "e2e/%s/%s/plain: %s %s" % (cfg.name, op, cls, _cls(str(out.exc))),
+                "pending %s on %s; v3 envelope without msgData: %s -> %s: %s" % (op, cfg.name, dg.hex()[:300], out.exc_name, str(out.exc)[:200]),
+                {"cfg": case["cfg"], "op": op, "datagram": dg, "replay_kind": "datagram", "req_ids": [req.request_id, req.msg_id]},
+            )
+        if not w.client_queue_empty():
+            w.flush_client_queue()
     for name, pdu in plain_pdus(req.request_id):
         is_report = name.startswith("report")
         if is_report and cfg.version != "v3":
